@@ -19,6 +19,8 @@ pub struct Minimizer {
     pub target: String,
     pub candidates: u64,
     watchdog: u64,
+    /// stop shrinking (keep the best so far) after this instant
+    deadline: std::time::Instant,
 }
 
 fn replay_signature(exe: &Path, file: &Path, watchdog: u64) -> Result<(Option<String>, String), String> {
@@ -64,7 +66,7 @@ fn simplest_of_kind(op: &Op) -> Option<Op> {
 }
 
 impl Minimizer {
-    pub fn new(tmpdir: &Path, watchdog: u64) -> Result<Minimizer, String> {
+    pub fn new(tmpdir: &Path, watchdog: u64, budget_secs: u64) -> Result<Minimizer, String> {
         let exe = std::env::current_exe().map_err(|e| e.to_string())?;
         fs::create_dir_all(tmpdir).map_err(|e| e.to_string())?;
         Ok(Minimizer {
@@ -73,6 +75,7 @@ impl Minimizer {
             target: String::new(),
             candidates: 0,
             watchdog,
+            deadline: std::time::Instant::now() + std::time::Duration::from_secs(budget_secs),
         })
     }
 
@@ -83,6 +86,9 @@ impl Minimizer {
     }
 
     fn fails(&mut self, s: &Session) -> bool {
+        if std::time::Instant::now() > self.deadline {
+            return false; // out of budget: no further shrinking
+        }
         matches!(self.signature_of(s), Ok(Some(sig)) if sig == self.target)
     }
 
@@ -132,6 +138,10 @@ impl Minimizer {
         let sig = self
             .signature_of(orig)?
             .ok_or("the session does not fail when replayed in a fresh process")?;
+        if sig.starts_with("blocked") {
+            // every failing candidate costs one watchdog period
+            self.watchdog = 1;
+        }
         self.target = sig;
         let mut cur = orig.clone();
 
@@ -209,6 +219,33 @@ impl Minimizer {
                 });
                 if cand != cur && self.fails(&cand) {
                     cur = cand;
+                }
+            }
+
+            // 2b. fold a child into its parent: drop the spawn, let the parent
+            // perform the child's steps
+            for pi in 0..cur.plans.len() {
+                let spawns: Vec<(u32, u32)> = cur.plans[pi]
+                    .steps
+                    .iter()
+                    .filter_map(|s| match s.action {
+                        Action::Spawn { child, .. } => Some((s.tid, child)),
+                        _ => None,
+                    })
+                    .collect();
+                for (parent, child) in spawns.into_iter().rev() {
+                    let mut cand = cur.clone();
+                    cand.plans[pi].steps.retain(
+                        |s| !matches!(s.action, Action::Spawn { child: c, .. } if c == child),
+                    );
+                    for s in cand.plans[pi].steps.iter_mut() {
+                        if s.tid == child {
+                            s.tid = parent;
+                        }
+                    }
+                    if self.fails(&cand) {
+                        cur = cand;
+                    }
                 }
             }
 
